@@ -213,6 +213,27 @@ fn repo_dir() -> String {
     a.get(2).cloned().filter(|p| std::path::Path::new(p).is_dir()).unwrap_or_else(|| std::env::var("VERIF_REPO").unwrap_or_else(|_| "/repo".to_string()))
 }
 
+/// single-word entries of a language's INSIGNIFICANT set, read from the repository's vocabulary file as it is now
+fn linking_words(code: &str) -> Vec<String> {
+    let mut words: Vec<String> = Vec::new();
+    if let Ok(text) = std::fs::read_to_string(format!("{}/src/lang/{}/vocabulary.rs", repo_dir(), code)) {
+        if let Some(pos) = text.find("INSIGNIFICANT") {
+            let body = &text[pos..];
+            let end = body.find("};").unwrap_or(body.len());
+            let mut rest = &body[..end];
+            while let Some(q) = rest.find('"') {
+                let tail = &rest[q + 1..];
+                if let Some(e) = tail.find('"') {
+                    let w = &tail[..e];
+                    if !w.is_empty() && !w.contains(' ') { words.push(w.to_string()); }
+                    rest = &tail[e + 1..];
+                } else { break; }
+            }
+        }
+    }
+    words
+}
+
 struct Case {
     descr: serde_json::Value,
     run: Box<dyn Fn() -> Option<String>>,
@@ -646,6 +667,40 @@ fn cases(mode: &str) -> Vec<Case> {
         }
         // C11: only the non-ASCII letters of a number word are capitalised
         "ncase" => {
+            // a linking word keeps two small numbers together whatever its case, also when the token carries the not-a-number hint
+            // (the scanner then takes the early path) and whatever the case of the number words themselves
+            let smalls: [(&str, &str, &str); 7] = [("en", "two", "five"), ("fr", "deux", "cinq"), ("es", "dos", "cinco"), ("pt", "dois", "cinco"), ("it", "due", "cinque"), ("de", "zwei", "fünf"), ("nl", "twee", "vijf")];
+            for (code, a, b) in smalls {
+                for w in linking_words(code) {
+                    let (c, a, b) = (code.to_string(), a.to_string(), b.to_string());
+                    out.push(Case {
+                        descr: serde_json::json!({"mode":"ncase","lang":code,"link":w}),
+                        run: guard(move || {
+                            let l = lang(&c);
+                            let up = w.to_uppercase();
+                            let cap: String = { let mut ch = w.chars(); match ch.next() { Some(f) => f.to_uppercase().collect::<String>() + ch.as_str(), None => String::new() } };
+                            for flagged in [false, true] {
+                                let mk = |word: &str, first: &str, second: &str| -> Vec<Tok> {
+                                    let mut t = Tok::w(word); t.nan = flagged;
+                                    vec![Tok::w(first), t, Tok::w(second)]
+                                };
+                                let base = occs(&find_numbers(mk(&w, &a, &b).into_iter(), &l, 10.0));
+                                for variant in [up.clone(), cap.clone()] {
+                                    if variant.to_lowercase() != w { continue; }
+                                    for (x, y) in [(a.clone(), b.clone()), (a.to_uppercase(), b.to_uppercase())] {
+                                        if x.to_lowercase() != a || y.to_lowercase() != b { continue; }
+                                        let got = occs(&find_numbers(mk(&variant, &x, &y).into_iter(), &l, 10.0));
+                                        if got != base {
+                                            return Some(format!("tokens [{:?}, {:?}{}, {:?}] at threshold 10: {:?}, but with the word in lower case: {:?}", x, variant, if flagged { " (flagged not-a-number)" } else { "" }, y, got, base));
+                                        }
+                                    }
+                                }
+                            }
+                            None
+                        }),
+                    });
+                }
+            }
             for (code, text) in [("fr", "zéro"), ("fr", "vingt et unième"), ("es", "veintidós"), ("es", "dieciséis"), ("pt", "três"), ("it", "ventitré"),
                                  ("de", "fünf"), ("de", "zwölf"), ("de", "dreißig und fünf"), ("nl", "één"), ("nl", "drieëntwintig")] {
                 let (c, t) = (code.to_string(), text.to_string());
